@@ -214,7 +214,7 @@ READS = [
     ("param_count", [], {}),
     ("param_count", [], {"count_duplicates": ["b", 0]}),
 ]
-LAZY_READS = [("names", None, None), ("_key_list", [], {}), ("_has_exclusive_keys", None, None),
+LAZY_READS = [("_key_list", [], {}), ("_has_exclusive_keys", None, None),
               ("_get_str", [["s", "x"]], {}), ("_get_str", [["s", "x"], ["known", 0]], {}), ("_get_str", [["s", "s"], ["known", 0]], {}),
               ("_get_str", [["s", "sub"], ["known", 0]], {})]
 
@@ -255,7 +255,7 @@ class MRunner:
                 meth, args, kwargs = cat[op["which"] % len(cat)]
                 if is_lazy(n) and cat is READS and meth in ("_nested_keys",):
                     meth, args, kwargs = "_key_list", [], {}
-                if (not is_lazy(n)) and meth in ("names", "_key_list", "_has_exclusive_keys", "_get_str"):
+                if (not is_lazy(n)) and meth in ("_key_list", "_has_exclusive_keys", "_get_str"):
                     meth, args, kwargs = "sorted_keys", None, None
                 osx, readinfo, out = self.read(p, n, meth, args, kwargs, op)
             elif k == "inplace":
@@ -414,7 +414,8 @@ class MRunner:
         osx = [Sym("read"), W.path_sx(p), Sym(meth), a_sx, k_sx]
         c = n.__dict__.get("_cache")
         try:
-            locked = bool(n.is_locked)
+            # the decorator memoises when the node is locked, and (D64) not merely through its members
+            locked = bool(n.is_locked) and getattr(n, "_is_locked", True) is not None
         except Exception:  # noqa: BLE001
             locked = False
         key = td_utils._make_cache_key(tuple(a_py), k_py) if args is not None else ((), ())
@@ -452,7 +453,7 @@ class MRunner:
             for op in self.prog["ops"]:
                 if self.do(op) == "abort":
                     break
-            line = sx([Sym("hist"), [False, False, False], True, st, self.ops_sx])
+            line = sx([Sym("hist"), [True, True, True], True, st, self.ops_sx])   # Model repo: the C06 repairs applied
         finally:
             self.W.close()
         return line, self.impl
